@@ -70,25 +70,27 @@ structure IntLaw (pyInt : Str → Option Int) : Prop where
 def isNumChar (c : Char) : Bool :=
   isDigit c || c == 'e' || c == '.' || c == '+' || c == '-' || c == 'I' || c == 'n' || c == 'f' || c == 'N' || c == 'a'
 
-/-- a float timestamp in plain decimal form `[-]D+.D+` -/
-def PlainRepr (r : Str) : Prop :=
+/-- `float()` reads the text as the finite double `b` -/
+def FiniteFloat (P : Params) (r : Str) : Prop := ∃ b, P.pyFloat r = some b ∧ P.isNaN b = false ∧ P.isInf b = false
+
+/-- a float timestamp in plain decimal form `[-]D+.D+`; a negative one above -1 (`-0.5`, `-0.0`) cannot be carried by a
+`Timestamp` (the sign sits on the second count) and stays a float (64745db): for it `float()` has to read the text -/
+def PlainRepr (P : Params) (r : Str) : Prop :=
   ∃ (neg : Bool) (a b : Str), r = (if neg then ['-'] else []) ++ a ++ '.' :: b ∧
     a ≠ [] ∧ a.all isDigit = true ∧ b ≠ [] ∧ b.all isDigit = true ∧
-    -- the sign of a negative value below one second cannot be represented by `Timestamp(0, nsec)`
-    ¬ (neg = true ∧ parseDigits a = 0 ∧ parseDigits (nineDigits b) ≠ 0)
+    (neg = true → parseDigits a = 0 → FiniteFloat P r)
 
-/-- a float timestamp in exponent form whose mantissa has fewer than nine fractional digits, read by `float()` as the
-finite double `b` -/
+/-- a float timestamp in exponent form, read by `float()` as a finite double -/
 def ExpRepr (P : Params) (r : Str) : Prop :=
-  'e' ∈ r ∧ r ≠ [] ∧ (∀ c ∈ r, isNumChar c = true) ∧
-    (∀ a p, splitFirst '.' r = (a, some p) → 'e' ∈ p.take 9) ∧
-    ∃ b, P.pyFloat r = some b ∧ P.isNaN b = false ∧ P.isInf b = false
+  'e' ∈ r ∧ r ≠ [] ∧ (∀ c ∈ r, isNumChar c = true) ∧ FiniteFloat P r
 
-/-- the timestamps the round trip is stated for -/
+/-- the timestamps the round trip is stated for: every `int`; every `Timestamp` object (its class invariant: the nanosecond
+field below 1e9 in magnitude and carrying the sign of the second count); every finite `float` by its `repr`.  Not included:
+`nan` / `inf` float timestamps — the exposition writes them, the parser rejects them on purpose ("Invalid timestamp") -/
 def TsOK (P : Params) : Ts → Prop
   | .int _ => True
-  | .stamp s n => 0 ≤ n ∧ n < nsPerSec ∧ (s < 0 → n = 0)
-  | .flt r => PlainRepr r ∨ ExpRepr P r
+  | .stamp s n => (0 ≤ s → 0 ≤ n ∧ n < nsPerSec) ∧ (s < 0 → -(nsPerSec : Int) < n ∧ n ≤ 0)
+  | .flt r => PlainRepr P r ∨ ExpRepr P r
 
 /-! ## values -/
 
@@ -101,10 +103,15 @@ structure ValTok (P : Params) (tok : Str) (b : Nat) : Prop where
 
 /-! ## samples -/
 
-/-- equality of an exposed and a parsed timestamp: by denoted value -/
+/-- an exposed and a parsed timestamp are the same instant: equal denoted values, or a float written by its `repr` and read
+back by `float()` as that very double -/
+def tsSame (P : Params) (t : Ts) (o : OTs) : Prop :=
+  tsDenote P.pyFloat t = some (otsDenote o) ∨ ∃ r b, t = .flt r ∧ o = .flt b ∧ P.pyFloat r = some b
+
+/-- equality of an exposed and a parsed optional timestamp -/
 def tsMatches (P : Params) : Option Ts → Option OTs → Prop
   | none, none => True
-  | some t, some o => tsDenote P.pyFloat t = some (otsDenote o)
+  | some t, some o => tsSame P t o
   | _, _ => False
 
 /-- equality of an exposed and a parsed exemplar -/
